@@ -140,7 +140,7 @@ def check_mutated_rule(ctx, case) -> None:
 
 # ---- exactly one injected error ------------------------------------------------------------------
 ERROR_CLASSES = ["missing_if", "missing_then", "missing_is", "missing_connective", "missing_variable", "missing_term", "missing_operand",
-                 "unknown_variable", "unknown_term", "unknown_hedge", "unbalanced_paren", "nonnumeric_weight",
+                 "unknown_variable", "unknown_term", "unknown_hedge", "foreign_term", "foreign_variable", "unbalanced_paren", "nonnumeric_weight",
                  "trailing_token"]
 UNKNOWN_NAMES = ["Foo", "bar_9", "Ambiente", "dark", "Q", "Powe", "veryy", "high_", "LOWER"]
 BAD_WEIGHTS = ["abc", "0,5", "1.0.0", "--1", "one", "HIGH", "0.5x", "1..0"]
@@ -204,6 +204,19 @@ def inject(r, cls, pick):
         if not idx:
             return None
         toks[idx[pick % len(idx)]] = UNKNOWN_NAMES[pick % len(UNKNOWN_NAMES)]
+    elif cls == "foreign_term":
+        # a term that exists, but on another variable (unknown name for the variable of this proposition)
+        idx = positions(lambda i, t: t in names_term)
+        if not idx:
+            return None
+        i = idx[pick % len(idx)]
+        owner = next(v for v, ts in list(tm.IN_VARS.items()) + list(tm.OUT_VARS.items()) if toks[i] in ts)
+        others = [t for v, ts in list(tm.IN_VARS.items()) + list(tm.OUT_VARS.items()) if v != owner for t in ts]
+        toks[i] = others[(pick // 7) % len(others)]
+    elif cls == "foreign_variable":
+        # an input variable in the consequent (only output variables can be concluded on)
+        idx = positions(lambda i, t: i > it and t in tm.OUT_VARS)
+        toks[idx[pick % len(idx)]] = list(tm.IN_VARS)[pick % len(tm.IN_VARS)]
     elif cls == "unknown_hedge":
         idx = positions(lambda i, t: t == "is")
         toks.insert(idx[pick % len(idx)] + 1, UNKNOWN_NAMES[pick % len(UNKNOWN_NAMES)])
